@@ -305,7 +305,7 @@ PINNED = [
     ("scale", {"fn": "scale", "flags": {}, "x": [1e-9, 2e-9, 4e-9, 3e-9], "xnew": [2e-9], "dec": -9, "off": 0, "path": "mm"}),
 ]
 SUBS = {
-    "scale": Sub(judge=judge_scale, gen=gen_scale, quick=1500, thorough=150_000, min_decided=300),
-    "poly": Sub(judge=judge_poly, gen=gen_poly, quick=800, thorough=100_000, min_decided=150),
-    "elementwise": Sub(judge=judge_elem, gen=gen_elem, quick=400, thorough=30_000, min_decided=100),
+    "scale": Sub(judge=judge_scale, gen=gen_scale, quick=6000, thorough=150_000, min_decided=300),
+    "poly": Sub(judge=judge_poly, gen=gen_poly, quick=3000, thorough=100_000, min_decided=150),
+    "elementwise": Sub(judge=judge_elem, gen=gen_elem, quick=1500, thorough=30_000, min_decided=100),
 }
